@@ -171,8 +171,10 @@ static void  init_slots(void)
     for (int i = 0; i < 2; i++) sd[i] = gr[i] = an[i] = FAIL;
     for (int i = 0; i < 4; i++) bit[i] = FAIL;
 }
+static int closeall_failed;   /* some Hclose / SDend did not succeed: handles may still be open */
 static void closeall(void)
 {
+    closeall_failed = 0;
     for (int i = 0; i < 4; i++) if (bit[i] != FAIL) { Hendbitaccess(bit[i], 0); bit[i] = FAIL; }
     for (int i = 0; i < NA; i++) {
         if (aid[i] != FAIL) { Hendaccess(aid[i]); aid[i] = FAIL; }
@@ -183,12 +185,12 @@ static void closeall(void)
         if (ann[i] != FAIL) { ANendaccess(ann[i]); ann[i] = FAIL; }
     }
     for (int i = 0; i < 2; i++) {
-        if (sd[i] != FAIL) { SDend(sd[i]); sd[i] = FAIL; }
+        if (sd[i] != FAIL) { if (SDend(sd[i]) == FAIL) closeall_failed = 1; sd[i] = FAIL; }
         if (gr[i] != FAIL) { GRend(gr[i]); gr[i] = FAIL; }
         if (an[i] != FAIL) { ANend(an[i]); an[i] = FAIL; }
     }
     for (int i = 0; i < NF; i++) {
-        if (fid[i] != FAIL) { if (vstarted[i]) Vend(fid[i]); vstarted[i] = 0; Hclose(fid[i]); fid[i] = FAIL; }
+        if (fid[i] != FAIL) { if (vstarted[i]) Vend(fid[i]); vstarted[i] = 0; if (Hclose(fid[i]) == FAIL) closeall_failed = 1; fid[i] = FAIL; }
     }
 }
 static const char *fname(long f) { static char b[4][32]; static int k; k = (k + 1) & 3; snprintf(b[k], 32, "f%ld.hdf", f); return b[k]; }
@@ -611,7 +613,7 @@ static int run_op(const char *op)
     OP("anreadann") { long n = I(1); NEED(SLOT(ann, n, NA)); int32 l = ANannlen(ann[n]); if (l == FAIL || l + 1 > (int32)sizeof big) rc = 0; else rc = ANreadann(ann[n], (char *)big, l + 1) != FAIL; sprintf(extra, " len=%ld", (long)l); }
     OP("aninfo") { long a = I(1); NEED(SLOT(an, a, 2)); int32 p, q, r, s; rc = ANfileinfo(an[a], &p, &q, &r, &s) != FAIL; sprintf(extra, " %ld %ld %ld %ld n=%ld", (long)p, (long)q, (long)r, (long)s, (long)ANnumann(an[a], AN_DATA_LABEL, (uint16)I(2), (uint16)I(3))); }
     /* ---------------- directives ---------------- */
-    OP("closeall") { closeall(); rc = 1; }
+    OP("closeall") { closeall(); rc = closeall_failed ? 0 : 1; }
     OP("snapshot") { rc = 2; }
     OP("check") { rc = 3; }
     OP("dump") { rc = 4; }
